@@ -165,8 +165,29 @@ fn gen_case<B: Backend>(c: &GenCase, acc: &mut Acc) -> R {
     for (i, (s, p)) in [(&sk, &pk), (&sk2, &pk), (&sk3, &pk2), (&sk, &pk3), (&sk2, &pk3)].iter().enumerate() {
         sign_verify::<B>(s, p, &msg).map_err(|e| Fail::new(format!("C08/{name}/behaviour/sign-verify-{i}"), format!("sign with (original|clone|re-parsed) secret key, verify with (public_key()|clone|re-parsed): {e}")))?;
     }
+    // equivalent keys behave identically: where signing is deterministic the original, its clone,
+    // a clone of the clone and the re-parsed key produce byte-identical tokens
+    if B::DETERMINISTIC_SIG {
+        let sign = |k: &SecretKeyOf<B>| UnsealedToken::<V<B>, Public, Raw>::new(Raw(msg.clone())).with_footer(vec![1, 2, 3]).seal(k, &[]).map(|t| t.to_string());
+        let t0 = sign(&sk).map_err(|e| Fail::new(format!("C08/{name}/behaviour/sign"), format!("{e}")))?;
+        let sk4 = sk2.clone();
+        for (label, k) in [("clone", &sk2), ("clone-of-clone", &sk4), ("re-parsed", &sk3)] {
+            let t = sign(k).map_err(|e| Fail::new(format!("C08/{name}/behaviour/sign"), format!("{e}")))?;
+            ensure!(t == t0, format!("C08/{name}/behaviour/{label}-signs-differently"), "the {label} of a secret key signs the same message differently from the original (deterministic signatures)");
+        }
+    }
     let lk2 = lk.clone();
     let lk3 = key_from_bytes::<V<B>, Local>(&key_bytes(&lk)).unwrap();
+    // same for local keys with a caller nonce: identical ciphertext from original, clone, re-parsed
+    {
+        let nonce = rng::det_bytes(c.msg_seed as u64, 0x10c, ver.local_draw_len());
+        let enc = |k: &LocalKeyOf<B>| UnsealedToken::<V<B>, Local, Raw>::new(Raw(msg.clone())).dangerous_seal_with_nonce(k, &[], nonce.clone()).map(|t| t.to_string());
+        let t0 = enc(&lk).map_err(|e| Fail::new(format!("C08/{name}/behaviour/encrypt"), format!("{e}")))?;
+        for (label, k) in [("clone", &lk2), ("re-parsed", &lk3)] {
+            let t = enc(k).map_err(|e| Fail::new(format!("C08/{name}/behaviour/encrypt"), format!("{e}")))?;
+            ensure!(t == t0, format!("C08/{name}/behaviour/local-{label}-encrypts-differently"), "the {label} of a local key encrypts differently");
+        }
+    }
     for (i, (a, b)) in [(&lk, &lk2), (&lk2, &lk3), (&lk3, &lk)].iter().enumerate() {
         enc_dec::<B>(a, b, &msg).map_err(|e| Fail::new(format!("C08/{name}/behaviour/encrypt-decrypt-{i}"), e))?;
     }
